@@ -51,8 +51,14 @@ def _replay(rep, pid, vecs, limit, name):
         elif d["newerr"]:
             real, got = "refused", 0
         else:
-            got = sum(len(r["data"]) for r in d["reads"])
-            last = d["reads"][-1]["res"] if d["reads"] else "nil"
+            # the machine is compared up to the first error; what later reads hand out is judged by Trace_Mice
+            upto = d["reads"]
+            for i, r in enumerate(upto):
+                if r["res"] == "err":
+                    upto = upto[:i + 1]
+                    break
+            got = sum(len(r["data"]) for r in upto)
+            last = upto[-1]["res"] if upto else "nil"
             real = {"eof": "eof", "err": "err"}.get(last, "open")
         if real != res or got != int(nd):
             rep.violation("replay:%s:%s->%s" % (d["draft"], res, real),
@@ -162,7 +168,7 @@ def check_c15(tier):
     rep.add("mutations", by_kind=kinds)
     for c in list(cases.values())[-2:]:
         rep.sample({"decode": {"draft": c["draft"], "note": c["note"], "stream_len": len(c["stream"]), "newerr": c["newerr"], "results": [r["res"] for r in c["reads"]][-3:]}})
-    rep.assumptions = ["the caller's record-size limit is below 2^31", "reads stop at the first error (io.Reader contract)",
+    rep.assumptions = ["the caller's record-size limit is below 2^31", "the decoder machine is compared up to the first error; up to 3 further reads are made and must still hand out only authenticated bytes",
                        "digest texts with CR/LF or non-zero unused base64 bits may be refused or decoded (property is about the decoded proof)"]
     return rep.finish()
 
